@@ -120,7 +120,7 @@ impl Property for GramProp {
         match self.id {
             "C12" => "cases: programs derived from the construct grammar (DESIGN 4.6) from a random choice stream, 1-6 statements, nesting depth <= 6; oracle: no error, end-of-input configuration (hook) is the initial one, in the debug-assertion and the optimized build, with and without macro_sep; plus the statement-complete real-world programs (whole and in ordered pairs); distinct = distinct program text; non-trivial = some construct is nested at least two levels inside a statement (call in argument, call in string, expression in a statement head, statement in a %do/%macro body)".into(),
             "C13" => "cases: construct-grammar programs with recorded marks (delimiters, masked delimiters, operators, integer operands, insignificant gaps); oracle on programs that lex without error: every mark is honoured; plus the sweep 'gap after/before a delimiter token is insignificant' on grammar and real-world programs; distinct = distinct program text (or program + insertion); non-trivial = the program has at least one masked delimiter and at least one real delimiter (sweep cases: the program has a macro token)".into(),
-            _ => "cases: a construct-grammar program plus one uniformly chosen deletable mandatory delimiter ('=' of %let / iterative %do, '(' after an argument-taking built-in / %while / %until / %syscall, ',' after the first %scan/%substr argument (two-argument form), '/' of %copy, ';' after %end / %return / %do %while|%until(...)), or truncation directly before a call's ')', or a cut at a point inside open call parentheses (then every '(' still open - the call's own, nested groups in argument text, expression parentheses, also below an unterminated string expression - must get its zero-width ')' at end of input); oracle: matching 'missing expected' error and zero-width recovery token(s) at the expected offset; every case is one fault; distinct = distinct mutated text".into(),
+            _ => "cases: a construct-grammar program plus one uniformly chosen deletable mandatory delimiter ('=' of %let / iterative %do, '(' after an argument-taking built-in / %while / %until / %syscall, ',' after the first %scan/%substr argument (two-argument form), '/' of %copy, ';' after %end / %return / %do %while|%until(...)), or truncation directly before a call's ')', or a cut at a point inside open call parentheses (then every '(' still open - the call's own, nested groups in argument text, expression parentheses, also below an unterminated string expression - must get its zero-width ')' at end of input); oracle: matching 'missing expected' error and zero-width recovery token(s) at the expected offset, and no other 'missing expected' error anywhere (every case is one fault); distinct = distinct mutated text".into(),
         }
     }
     fn stream_len(&self) -> usize {
@@ -393,6 +393,14 @@ fn check_c14(g: &G, sel: u64, mut vd: Verdict) -> Verdict {
         vd.violations.push(Violation::new("C14", "not-diagnosed", format!("not-diagnosed:{}", d.err), format!("expected {} at byte {exp}: {show}; errors: {:?}", d.err, r.errs.iter().map(|e| (e.k, e.b)).collect::<Vec<_>>())));
     } else if !has_tok {
         vd.violations.push(Violation::new("C14", "no-recovery-token", format!("no-recovery-token:{}", d.tok), format!("expected zero-width {} at byte {exp}: {show}", d.tok)));
+    } else {
+        // one left-out delimiter in an otherwise well-formed program is one fault: no other delimiter may be reported
+        // as missing (the recovery must not corrupt how the rest of the program is lexed)
+        let others: Vec<_> = r.errs.iter().filter(|e| format!("{:?}", e.k).starts_with("MissingExpected") && !(format!("{:?}", e.k) == d.err && e.b as usize == exp)).map(|e| (e.k, e.b)).collect();
+        vd.label(format!("further-missing-expected-errors:{}:{}", d.tok, others.len().min(3)));
+        if !others.is_empty() {
+            vd.violations.push(Violation::new("C14", "spurious-missing-expected", format!("spurious-missing-expected:{}", d.tok), format!("besides the expected {} at byte {exp}, delimiters that are present are reported as missing: {others:?}: {show}", d.err)));
+        }
     }
     vd.nontrivial = true;
     vd
@@ -433,6 +441,12 @@ fn check_c14_text(case: &Case) -> Verdict {
         vd.violations.push(Violation::new("C14", "not-diagnosed", format!("not-diagnosed:{err}"), format!("expected {err} at byte {exp} of {m:?}; errors: {:?}", r.errs.iter().map(|e| (e.k, e.b)).collect::<Vec<_>>())));
     } else if !has_tok {
         vd.violations.push(Violation::new("C14", "no-recovery-token", format!("no-recovery-token:{tok}"), format!("expected zero-width {tok} at byte {exp} of {m:?}")));
+    } else {
+        let others: Vec<_> = r.errs.iter().filter(|e| format!("{:?}", e.k).starts_with("MissingExpected") && !(format!("{:?}", e.k) == err && e.b as usize == exp)).map(|e| (e.k, e.b)).collect();
+        vd.label(format!("real:further-missing-expected-errors:{tok}:{}", others.len().min(3)));
+        if !others.is_empty() && case.gen == "real-world-deletion" {
+            vd.violations.push(Violation::new("C14", "spurious-missing-expected", format!("spurious-missing-expected:{tok}"), format!("besides the expected {err} at byte {exp}, delimiters that are present are reported as missing: {others:?} in {:?}", &m[crate::props::gramp::floor(m, exp.saturating_sub(40))..crate::props::gramp::ceil(m, (exp + 20).min(m.len()))])));
+        }
     }
     vd
 }
